@@ -178,11 +178,18 @@ def matrix(ctx, sut):
     mine = [cell for i, cell in enumerate(cells) if i % ctx.nshards == ctx.shard]
     idx = 0
     for position, keyword in mine:
-        for _ in range(ctx.params["hosts"]):
+        for host_no in range(ctx.params["hosts"]):
             idx += 1
             host = host_schema(rng)
+            if host_no == 0:
+                # the offending keyword ALONE (plus, sometimes, its usual companions): a schema that holds
+                # nothing the library models
+                host = {}
+                ctx.count("host.bare_keyword_only")
             inner = dict(host)
             inner[keyword] = copy.deepcopy(UNSUPPORTED[keyword])
+            if not host and keyword == "if" and rng.random() < 0.5:
+                inner["then"] = {"type": "string"}
             doc = place(inner, position, rng)
             control = place(dict(host), position, rng)
             ctx.count("pos." + position)
